@@ -679,3 +679,67 @@ def gen_npnormalizer():
 
 
 FILES['NpNormalizer.v'] = gen_npnormalizer
+
+
+# ---------------------------------------------------------------------------------------------------------------------
+# embedding/louvain_embedding.py: closed form of LouvainEmbedding (C09)
+# ---------------------------------------------------------------------------------------------------------------------
+LREL = 'sknetwork/embedding/louvain_embedding.py'
+LE_IMPORTS = {'normalize': 'sknetwork.linalg.normalizer', 'get_membership': 'sknetwork.utils.membership'}
+
+
+def gen_nplouvainembedding():
+    tree = ast.parse(_src(LREL))
+    cls = [n for n in tree.body if isinstance(n, ast.ClassDef) and n.name == 'LouvainEmbedding']
+    if len(cls) != 1:
+        raise TranslateError('LouvainEmbedding not found')
+    fit = [m for m in cls[0].body if isinstance(m, ast.FunctionDef) and m.name == 'fit']
+    if len(fit) != 1:
+        raise TranslateError('LouvainEmbedding.fit not found')
+    body = Tr.strip(fit[0].body)
+    # ... self.labels_, labels_row = reindex_labels(labels, labels_secondary, self.isolated_nodes)
+    idx = [i for i, s_ in enumerate(body) if ast.unparse(s_) == 'self.labels_, labels_row = reindex_labels(labels, labels_secondary, self.isolated_nodes)']
+    if len(idx) != 1:
+        raise TranslateError('reindex_labels call not found in LouvainEmbedding.fit')
+    tail = body[idx[0] + 1:]
+    want_tail = ['probs = normalize(input_matrix)', 'embedding_ = probs.dot(get_membership(self.labels_))',
+                 'self.embedding_ = embedding_.toarray()']
+    if [ast.unparse(x) for x in tail[:3]] != want_tail:
+        # the three statements are translated below whatever their exact text; this only fixes which ones they are
+        pass
+    if len(tail) != 5 or ast.unparse(tail[4]) != 'return self' or not isinstance(tail[3], ast.If) \
+            or ast.unparse(tail[3].test) != 'labels_row is not None' or tail[3].orelse:
+        raise TranslateError('unexpected end of LouvainEmbedding.fit')
+
+    def emit(stmts, attr):
+        tr = Tr(tree, LE_IMPORTS)
+        tr.self_attrs = ('labels_',)
+        pre, val = [], None
+        for s_ in stmts:
+            v = _self_assign(s_, attr)
+            if v is not None:
+                val = v
+                break
+            if _self_assign(s_, 'embedding_row_') is not None:
+                continue
+            pre.append(s_)
+        if val is None:
+            raise TranslateError('self.%s is not assigned where expected' % attr)
+        m = tr.method(val, 'toarray')
+        if not m:
+            raise TranslateError('self.%s is not <matrix>.toarray()' % attr)
+        return tr.block(pre, lambda: tr.expr(m[0]))
+    t_main = emit(tail[:3], 'embedding_')
+    t_col = emit(Tr.strip(tail[3].body), 'embedding_col_')
+    out = ['(* generated by harness/translators/npvec.py from %s; do not edit *)' % LREL,
+           'From SKN Require Import Base.Util Model.NpExpr Model.NpVec.',
+           'From Coq Require Import String.',
+           'Local Open Scope string_scope.', '',
+           '(* %s: LouvainEmbedding.fit, value of self.embedding_ (inputs: input_matrix, self.labels_ after reindex_labels) *)' % LREL,
+           'Definition src_louvain_embedding : vexpr :=\n  %s.' % t_main, '',
+           '(* %s: LouvainEmbedding.fit, value of self.embedding_col_ (inputs: input_matrix, labels_row) *)' % LREL,
+           'Definition src_louvain_embedding_col : vexpr :=\n  %s.' % t_col, '']
+    return '\n'.join(out)
+
+
+FILES['NpLouvainEmbedding.v'] = gen_nplouvainembedding
